@@ -918,6 +918,11 @@ var pureStd = map[string]bool{
 	"unicode/utf8.DecodeRuneInString": true, "builtin:len": true, "builtin:cap": true, "builtin:append": true,
 	"strings.TrimSpace": true, "strings.Contains": true, "strings.TrimRight": true, "strings.TrimSuffix": true, "strings.TrimPrefix": true,
 	"strings.ToLower": true, "strings.ToUpper": true, "strings.EqualFold": true, "strings.Index": true, "strings.Repeat": true,
+	"strings.ContainsRune": true, "strings.ContainsAny": true, "strings.IndexRune": true, "strings.IndexByte": true, "strings.IndexAny": true,
+	"strings.LastIndex": true, "strings.Count": true, "strings.Fields": true, "strings.Title": true, "strings.TrimLeft": true, "strings.Trim": true,
+	"strings.Replace": true, "strings.Compare": true, "strconv.Atoi": true, "strconv.Quote": true, "strconv.FormatInt": true,
+	"unicode.IsUpper": true, "unicode.IsLower": true, "unicode.IsPunct": true, "unicode.ToLower": true, "unicode.ToUpper": true, "unicode.In": true,
+	"unicode/utf8.RuneLen": true, "unicode/utf8.RuneCountInString": true, "unicode/utf8.DecodeLastRuneInString": true, "unicode/utf8.ValidString": true,
 	"sort.Strings": false,
 }
 
